@@ -169,9 +169,13 @@ class Sampler:
     """callable(lon, lat) -> 256x256 array; masks rows by their index in the array it is given
     (top half / bottom half) and whole tiles (recognised by the coordinates of pixel (0, 0))."""
 
-    def __init__(self, kind, tag, mtop=False, mbot=False, masked_tiles=()):
+    def __init__(self, kind, tag, mtop=False, mbot=False, masked_tiles=(), keep=False, readonly=False):
         self.kind, self.tag, self.mtop, self.mbot = kind, tag, mtop, mbot
         self.masked_keys = set(masked_tiles)
+        # a sampler may keep what it returns (a memoising sampler, views of a precomputed mosaic) and may
+        # hand out read-only arrays: the data it returns are its own
+        self.keep, self.readonly = keep, readonly
+        self._memo = {}
 
     def mask_for(self, lon, lat):
         m = np.zeros(lon.shape, dtype=bool)
@@ -184,7 +188,15 @@ class Sampler:
         return m
 
     def __call__(self, lon, lat):
-        return apply_mask(self.kind, render(self.kind, lon, lat, self.tag), self.mask_for(lon, lat))
+        key = (float(lon[0, 0]), float(lat[0, 0]), float(lon[-1, -1]), float(lat[-1, -1]))
+        if self.keep and key in self._memo:
+            return self._memo[key]
+        out = apply_mask(self.kind, render(self.kind, lon, lat, self.tag), self.mask_for(lon, lat))
+        if self.readonly:
+            out.setflags(write=False)
+        if self.keep:
+            self._memo[key] = out
+        return out
 
 
 # ---------------------------------------------------------------------------
@@ -327,7 +339,8 @@ def make_sampler(case, cs, ps):
     for p in ps.get("masked_tiles", []):
         lon, lat = expected_coords(cs, tuple(p))
         keys.append((float(lon[0, 0]), float(lat[0, 0])))
-    return Sampler(case["kind"], ps["tag"], ps["mtop"], ps["mbot"], keys)
+    return Sampler(case["kind"], ps["tag"], ps["mtop"], ps["mbot"], keys, keep=bool(case.get("twice")),
+                   readonly=bool(case.get("readonly")))
 
 
 def run_impl(case, work, tag):
@@ -352,8 +365,14 @@ def run_impl(case, work, tag):
         os.mkdir = slow_mkdir
     try:
         with quiet():
-            for ps in case["passes"]:
-                s = make_sampler(case, cs, ps)
+            samplers = [make_sampler(case, cs, ps) for ps in case["passes"]]
+            targets = [pio]
+            if case.get("twice"):
+                # the same (memoising) sampler objects first serve a run into another directory
+                scratch = work / f"c06_{tag}_first"
+                shutil.rmtree(scratch, ignore_errors=True)
+                targets = [PyramidIO(str(scratch), default_format=case["default"], scheme=case.get("scheme", "L/Y/YX")), pio]
+            for pio, (ps, s) in [(t, x) for t in targets for x in zip(case["passes"], samplers)]:
                 acc = None if ps["acc"] is None else set(map(tuple, ps["acc"]))
                 if case["via"] == "builder":
                     from toasty.builder import Builder
@@ -374,6 +393,7 @@ def run_impl(case, work, tag):
     finally:
         os.mkdir = real_mkdir
     files = None if exc is not None else read_files(str(base))
+    shutil.rmtree(work / f"c06_{tag}_first", ignore_errors=True)
     shutil.rmtree(base, ignore_errors=True)
     return files, exc
 
@@ -521,6 +541,17 @@ def gen_cases(rng, tier):
     add(depth=1, default="npy", kind="f64", scheme="LXY")
     add(depth=1, default="npy", kind="i32", scheme="LXY", parallel=2)
     add(depth=2, default="fits", kind="f64", scheme="LXY", parallel=5, coordsys="planetary")
+    # samplers that keep the arrays they return (the same grid is sampled in two runs) or return read-only arrays
+    add(depth=1, default="fits", kind="f64", twice=True)
+    add(depth=1, default="npy", kind="i32", twice=True, coordsys="planetary")
+    add(depth=1, default="fits", kind="i32", readonly=True)
+    add(depth=2, default="png", kind="rgb", readonly=True, coordsys="planetary")
+    # filtered sampling with several workers and a number of accepted leaves that is not a multiple of four
+    add(parallel=2, depth=2, default="npy", kind="f64", clobber=False,
+        passes=[dict(acc=[[1, 0, 0], [1, 1, 0], [2, 0, 0], [2, 1, 1], [2, 2, 0], [2, 3, 1], [2, 3, 0]], tag=1, mtop=False, mbot=False,
+                     masked_tiles=[])])
+    add(parallel=3, depth=2, default="fits", kind="f64", clobber=False, coordsys="planetary",
+        passes=[dict(acc=[[1, 1, 1], [2, 2, 2], [2, 3, 3], [2, 2, 3]], tag=1, mtop=False, mbot=False, masked_tiles=[])])
     # through Builder.toast_base
     add(via="builder", depth=1, default="png", kind="rgb")
     add(via="builder", depth=2, default="fits", kind="f64", coordsys="planetary", clobber=False,
